@@ -540,9 +540,88 @@ def _byte(v):
     return v
 
 
+UF_SRC = {}    # id(byte expr) -> (expr kept alive, application id, byte index) for bytes of uninterpreted-hash outputs
+UF_APPS = []   # application id -> (tag, argument items, output length)
+
+
+def _uf_run(items, i):
+    """if items[i:] starts with the complete output of one hash application, return its id"""
+    it = items[i]
+    if not isinstance(it, SymInt):
+        return None
+    r = UF_SRC.get(it.e.get_id())
+    if r is None or r[2] != 0:
+        return None
+    app = r[1]
+    n = UF_APPS[app][2]
+    if i + n > len(items):
+        return None
+    for k in range(1, n):
+        x = items[i + k]
+        if not isinstance(x, SymInt):
+            return None
+        rk = UF_SRC.get(x.e.get_id())
+        if rk is None or rk[1] != app or rk[2] != k:
+            return None
+    return app
+
+
 def seq_eq(a, b):
     if len(a) != len(b):
         return False
+    ex = core.CUR
+    if ex is not None and getattr(ex, "collision_free", False) and UF_SRC:
+        return _seq_eq_injective(a, b)
+    cs = []
+    for x, y in zip(a, b):
+        if isinstance(x, int) and isinstance(y, int):
+            if x != y:
+                return False
+        else:
+            c = (x == y)
+            if c is False:
+                return False
+            if c is not True:
+                cs.append(c)
+    return sym_and(*cs)
+
+
+def _seq_eq_injective(a, b):
+    """equality under the stated assumption 'no collision among occurring hash inputs':
+    H(x) == H(y) is x == y (hash outputs behave like an injective constructor)"""
+    cs = []
+    i = 0
+    n = len(a)
+    while i < n:
+        ra = _uf_run(a, i)
+        rb = _uf_run(b, i) if ra is not None else None
+        if ra is not None and rb is not None:
+            ta, ia, na = UF_APPS[ra]
+            tb, ib, nb = UF_APPS[rb]
+            if ta == tb and na == nb:
+                if ra != rb:
+                    c = _seq_eq_injective(ia, ib) if len(ia) == len(ib) else False
+                    if c is False:
+                        return False
+                    if c is not True:
+                        cs.append(c)
+                i += na
+                continue
+        x, y = a[i], b[i]
+        if isinstance(x, int) and isinstance(y, int):
+            if x != y:
+                return False
+        else:
+            c = (x == y)
+            if c is False:
+                return False
+            if c is not True:
+                cs.append(c)
+        i += 1
+    return sym_and(*cs)
+
+
+def _seq_eq_plain(a, b):
     cs = []
     for x, y in zip(a, b):
         if isinstance(x, int) and isinstance(y, int):
